@@ -12,6 +12,10 @@ CLAIMS = {
    text="Theorems over a hand model of BodyStructParser (BodyStruct.v), for all trees of any width and depth: the map built by the walker holds exactly (IMAP part specifier -> part) (soundness, completeness, no key inserted twice); every candidate search() may return leads to a part satisfying the predicate, and there is a candidate iff some part satisfies it; every index lies between 1 and the widest multipart (u32 counter cannot overflow below 2^32 children). Tied to the code by running the real BodyStructParser on ~35 000 generated (tree, predicate) cases and requiring its answer to be one of the model's candidates; an implementation-only oracle (the property's own definition of part specifiers) judges violations.",
    note=TB + "Modelled, not verified: HashMap (insert keeps last value per key; iteration order arbitrary). message/rfc822 parts are leaves for the walker, as in the code.",
    technique="Coq proof by induction over trees + extraction-based differential vs BodyStructParser", ref="3 C17"),
+ "C10": dict(
+   text="Theorems over a hand model of quoted_string (the imperative loop with start/new/slices and the borrowed fast path) and of the text-taking builders (Builders.v), for ALL byte strings of any length: the loop computes exactly `escape` (refinement); refusal iff the text contains CR or LF; the output contains no CR/LF; an independent quoted-string lexer reads back exactly the text given and stops at the closing quote; whole commands lex to verb + the given arguments (hence injectivity); UTF-8 validity is preserved so the inner unwrap cannot fail; the encoded request is one line ending in the only CRLF. Tied to the code by exhaustive comparison on all ASCII strings of length <= 2 (quick) / 3 (thorough) in each of the 6 argument slots plus random Unicode strings, including the bytes the real client writes.",
+   note=TB + "Modelled, not verified: Rust's String::from_utf8 (RFC 3629 automaton in Bytes.v), format!. Arguments are &str (valid UTF-8); the theorems cover all byte strings and show the panic branch unreachable for valid UTF-8.",
+   technique="Coq proof (loop invariant + refinement to escape; inverse lexer) + exhaustive/ random extraction-based differential", ref="3 C10"),
  "C11": dict(
    text="Theorems over a hand model of IdGenerator (Tags.v): every tag is a valid 5-byte IMAP tag; any two of 10 000 consecutive counter values give different tags for every start (arithmetic proof, not enumeration); k<=10000 calls from any non-overflowing state yield NoDup tags. The model is tied to the code by running 30 000 commands through the real client over a mock transport and comparing the tags on the wire with the extracted model.",
    note=TB + "Modelled, not verified: format!(\"A{:04}\") (pad4), u64 increment without overflow inside the window. The exact-match half (completion only by the byte-identical tag) is pinned with the client machine (C05) when that is built.",
